@@ -2,18 +2,23 @@
 
     Valid domain: at least two teams, no empty team, beta > 0 (sigma >= 0 is not needed:
     only sigma^2 enters).  [C09_length] and [C09_two_identical_half] are carrier-polymorphic
-    (they hold verbatim for binary64); the others are over R and use [gf_range], [gf_sym],
-    [gf_mono] of [GaussFacts Phi Phiinv].
+    (they hold verbatim for binary64); the others are over R and use [gc_range], [gc_sym],
+    [gc_mono] of [GaussCDF Phi Phiinv].
 
-    Non-vacuity: [GaussFacts] cannot be instantiated here (no formalised Gaussian integral
-    is installed), so the theorems over R have no closed Example; the polymorphic theorems
-    are instantiated on concrete carriers below.
+    Non-vacuity: the premise [GaussCDF Phi Phiinv] IS instantiated, without any hypothesis,
+    by [GaussInst.GaussCDF_inst : GaussCDF GaussInst.PhiK GaussInst.PhiinvK], where
+    [GaussInst.PhiK x = 1/2 + (int_0^x exp(-t^2/2) dt) / (2 I)] is the standard normal
+    distribution function (the only fact about it that is not proved is the numeric value of
+    its normalising constant, 2 * I = sqrt (2 * pi), which these theorems do not need).
+    Every theorem with that premise has a premise-free corollary [<name>_inst] at the end of
+    the file; the polymorphic theorems are instantiated on concrete carriers below.
 
     "To floating-point accuracy" (equality of the probabilities of identical teams under
     permutation in binary64) is not a theorem over R, where the equalities are exact; it is
     covered by the monitors (DESIGN.md §7, C09). *)
 From Coq Require Import List ZArith Reals Permutation.
 From OSV Require Import Num Gauss Core Predict RInst.
+From OSV Require GaussInst.
 From OSV.Lemmas Require PredictL C09L.
 Import ListNotations.
 
@@ -57,14 +62,14 @@ Proof. vm_compute. reflexivity. Qed.
 Open Scope R_scope.
 
 (** ... in particular over R. *)
-Theorem C09_two_identical_half_R : forall (Phi Phiinv : R -> R), GaussFacts Phi Phiinv ->
+Theorem C09_two_identical_half_R : forall (Phi Phiinv : R -> R), GaussCDF Phi Phiinv ->
   forall (beta : R) (t : list (rating R)), 0 < beta -> t <> [] ->
   predict_win (H := RNum Phi Phiinv) beta [t; t] = [/ 2; / 2].
 Proof. intros Phi Phiinv GF beta t Hb Ht. exact (C09L.C09_two_identical_half_R Phi Phiinv GF beta t Ht). Qed.
 Print Assumptions C09_two_identical_half_R.
 
 (** Every value is in [0, 1] ... *)
-Theorem C09_range : forall (Phi Phiinv : R -> R), GaussFacts Phi Phiinv ->
+Theorem C09_range : forall (Phi Phiinv : R -> R), GaussCDF Phi Phiinv ->
   forall (beta : R) (teams : list (list (rating R))) (v : R),
   0 < beta -> (2 <= length teams)%nat -> Forall (fun t => t <> []) teams ->
   In v (predict_win (H := RNum Phi Phiinv) beta teams) -> 0 <= v <= 1.
@@ -72,7 +77,7 @@ Proof. intros Phi Phiinv GF beta teams v Hb. exact (C09L.C09_range Phi Phiinv GF
 Print Assumptions C09_range.
 
 (** ... in fact strictly inside. *)
-Theorem C09_range_strict : forall (Phi Phiinv : R -> R), GaussFacts Phi Phiinv ->
+Theorem C09_range_strict : forall (Phi Phiinv : R -> R), GaussCDF Phi Phiinv ->
   forall (beta : R) (teams : list (list (rating R))) (v : R),
   0 < beta -> (2 <= length teams)%nat -> Forall (fun t => t <> []) teams ->
   In v (predict_win (H := RNum Phi Phiinv) beta teams) -> 0 < v < 1.
@@ -80,7 +85,7 @@ Proof. intros Phi Phiinv GF beta teams v Hb. exact (C09L.C09_range_strict Phi Ph
 Print Assumptions C09_range_strict.
 
 (** The values sum to 1. *)
-Theorem C09_sum_one : forall (Phi Phiinv : R -> R), GaussFacts Phi Phiinv ->
+Theorem C09_sum_one : forall (Phi Phiinv : R -> R), GaussCDF Phi Phiinv ->
   forall (beta : R) (teams : list (list (rating R))),
   0 < beta -> (2 <= length teams)%nat -> Forall (fun t => t <> []) teams ->
   Rsum (predict_win (H := RNum Phi Phiinv) beta teams) = 1.
@@ -90,7 +95,7 @@ Print Assumptions C09_sum_one.
 (** Permuting the teams permutes the result: the (team, probability) pairs of a permuted
     call are a permutation of the pairs of the original call (any permutation, any number
     of teams >= 2, including the swap of two teams). *)
-Theorem C09_equivariant : forall (Phi Phiinv : R -> R), GaussFacts Phi Phiinv ->
+Theorem C09_equivariant : forall (Phi Phiinv : R -> R), GaussCDF Phi Phiinv ->
   forall (beta : R) (teams teams' : list (list (rating R))),
   0 < beta -> (2 <= length teams)%nat -> Forall (fun t => t <> []) teams ->
   Permutation teams teams' ->
@@ -101,7 +106,7 @@ Print Assumptions C09_equivariant.
 
 (** Positional form: if team [j] of the original call sits at position [i] of the permuted
     call, it gets the same probability there. *)
-Theorem C09_equivariant_nth : forall (Phi Phiinv : R -> R), GaussFacts Phi Phiinv ->
+Theorem C09_equivariant_nth : forall (Phi Phiinv : R -> R), GaussCDF Phi Phiinv ->
   forall (beta : R) (teams teams' : list (list (rating R))) (i j : nat),
   0 < beta -> (2 <= length teams)%nat -> Forall (fun t => t <> []) teams ->
   Permutation teams teams' -> (i < length teams')%nat -> (j < length teams)%nat ->
@@ -112,7 +117,7 @@ Print Assumptions C09_equivariant_nth.
 
 (** Teams with the same aggregate (sum of mu, sum of sigma^2) — in particular identical
     teams — get identical probabilities. *)
-Theorem C09_identical_equal : forall (Phi Phiinv : R -> R), GaussFacts Phi Phiinv ->
+Theorem C09_identical_equal : forall (Phi Phiinv : R -> R), GaussCDF Phi Phiinv ->
   forall (beta : R) (teams : list (list (rating R))) (i j : nat),
   0 < beta -> (2 <= length teams)%nat -> Forall (fun t => t <> []) teams ->
   (i < length teams)%nat -> (j < length teams)%nat ->
@@ -125,7 +130,7 @@ Print Assumptions C09_identical_equal.
 
 (** Raising the mu of one member [p] (to [p'], same sigma) of the team at position
     [length l1] does not lower that team's probability ... *)
-Theorem C09_mono_own : forall (Phi Phiinv : R -> R), GaussFacts Phi Phiinv ->
+Theorem C09_mono_own : forall (Phi Phiinv : R -> R), GaussCDF Phi Phiinv ->
   forall (beta : R) (l1 l2 : list (list (rating R))) (p1 p2 : list (rating R)) (p p' : rating R),
   0 < beta ->
   (2 <= length (l1 ++ (p1 ++ p :: p2) :: l2))%nat -> Forall (fun t => t <> []) (l1 ++ (p1 ++ p :: p2) :: l2) ->
@@ -136,7 +141,7 @@ Proof. intros Phi Phiinv GF beta l1 l2 p1 p2 p p' Hb. exact (C09L.C09_mono_own P
 Print Assumptions C09_mono_own.
 
 (** ... and does not raise the probability of any other team [j]. *)
-Theorem C09_mono_other : forall (Phi Phiinv : R -> R), GaussFacts Phi Phiinv ->
+Theorem C09_mono_other : forall (Phi Phiinv : R -> R), GaussCDF Phi Phiinv ->
   forall (beta : R) (l1 l2 : list (list (rating R))) (p1 p2 : list (rating R)) (p p' : rating R) (j : nat),
   0 < beta ->
   (2 <= length (l1 ++ (p1 ++ p :: p2) :: l2))%nat -> Forall (fun t => t <> []) (l1 ++ (p1 ++ p :: p2) :: l2) ->
@@ -146,3 +151,83 @@ Theorem C09_mono_other : forall (Phi Phiinv : R -> R), GaussFacts Phi Phiinv ->
   <= nth j (predict_win (H := RNum Phi Phiinv) beta (l1 ++ (p1 ++ p :: p2) :: l2)) 0.
 Proof. intros Phi Phiinv GF beta l1 l2 p1 p2 p p' j Hb. exact (C09L.C09_mono_other Phi Phiinv GF beta Hb l1 l2 p1 p2 p p' j). Qed.
 Print Assumptions C09_mono_other.
+
+(** ** Hypothesis-free corollaries: the premise [GaussCDF Phi Phiinv] discharged by the concrete
+    standard normal distribution function [GaussInst.PhiK] and its inverse [GaussInst.PhiinvK]
+    ([GaussInst.GaussCDF_inst]). *)
+Theorem C09_two_identical_half_R_inst :
+  forall (beta : R) (t : list (rating R)), 0 < beta -> t <> [] ->
+  predict_win (H := RNum GaussInst.PhiK GaussInst.PhiinvK) beta [t; t] = [/ 2; / 2].
+Proof. exact (C09_two_identical_half_R GaussInst.PhiK GaussInst.PhiinvK GaussInst.GaussCDF_inst). Qed.
+Print Assumptions C09_two_identical_half_R_inst.
+
+Theorem C09_range_inst :
+  forall (beta : R) (teams : list (list (rating R))) (v : R),
+  0 < beta -> (2 <= length teams)%nat -> Forall (fun t => t <> []) teams ->
+  In v (predict_win (H := RNum GaussInst.PhiK GaussInst.PhiinvK) beta teams) -> 0 <= v <= 1.
+Proof. exact (C09_range GaussInst.PhiK GaussInst.PhiinvK GaussInst.GaussCDF_inst). Qed.
+Print Assumptions C09_range_inst.
+
+Theorem C09_range_strict_inst :
+  forall (beta : R) (teams : list (list (rating R))) (v : R),
+  0 < beta -> (2 <= length teams)%nat -> Forall (fun t => t <> []) teams ->
+  In v (predict_win (H := RNum GaussInst.PhiK GaussInst.PhiinvK) beta teams) -> 0 < v < 1.
+Proof. exact (C09_range_strict GaussInst.PhiK GaussInst.PhiinvK GaussInst.GaussCDF_inst). Qed.
+Print Assumptions C09_range_strict_inst.
+
+Theorem C09_sum_one_inst :
+  forall (beta : R) (teams : list (list (rating R))),
+  0 < beta -> (2 <= length teams)%nat -> Forall (fun t => t <> []) teams ->
+  Rsum (predict_win (H := RNum GaussInst.PhiK GaussInst.PhiinvK) beta teams) = 1.
+Proof. exact (C09_sum_one GaussInst.PhiK GaussInst.PhiinvK GaussInst.GaussCDF_inst). Qed.
+Print Assumptions C09_sum_one_inst.
+
+Theorem C09_equivariant_inst :
+  forall (beta : R) (teams teams' : list (list (rating R))),
+  0 < beta -> (2 <= length teams)%nat -> Forall (fun t => t <> []) teams ->
+  Permutation teams teams' ->
+  Permutation (combine teams (predict_win (H := RNum GaussInst.PhiK GaussInst.PhiinvK) beta teams))
+              (combine teams' (predict_win (H := RNum GaussInst.PhiK GaussInst.PhiinvK) beta teams')).
+Proof. exact (C09_equivariant GaussInst.PhiK GaussInst.PhiinvK GaussInst.GaussCDF_inst). Qed.
+Print Assumptions C09_equivariant_inst.
+
+Theorem C09_equivariant_nth_inst :
+  forall (beta : R) (teams teams' : list (list (rating R))) (i j : nat),
+  0 < beta -> (2 <= length teams)%nat -> Forall (fun t => t <> []) teams ->
+  Permutation teams teams' -> (i < length teams')%nat -> (j < length teams)%nat ->
+  nth i teams' [] = nth j teams [] ->
+  nth i (predict_win (H := RNum GaussInst.PhiK GaussInst.PhiinvK) beta teams') 0 = nth j (predict_win (H := RNum GaussInst.PhiK GaussInst.PhiinvK) beta teams) 0.
+Proof. exact (C09_equivariant_nth GaussInst.PhiK GaussInst.PhiinvK GaussInst.GaussCDF_inst). Qed.
+Print Assumptions C09_equivariant_nth_inst.
+
+Theorem C09_identical_equal_inst :
+  forall (beta : R) (teams : list (list (rating R))) (i j : nat),
+  0 < beta -> (2 <= length teams)%nat -> Forall (fun t => t <> []) teams ->
+  (i < length teams)%nat -> (j < length teams)%nat ->
+  let Tmu := fun t : list (rating R) => Rsum (map r_mu t) in
+  let Tvar := fun t : list (rating R) => Rsum (map (fun p => r_sigma p * r_sigma p) t) in
+  Tmu (nth i teams []) = Tmu (nth j teams []) -> Tvar (nth i teams []) = Tvar (nth j teams []) ->
+  nth i (predict_win (H := RNum GaussInst.PhiK GaussInst.PhiinvK) beta teams) 0 = nth j (predict_win (H := RNum GaussInst.PhiK GaussInst.PhiinvK) beta teams) 0.
+Proof. exact (C09_identical_equal GaussInst.PhiK GaussInst.PhiinvK GaussInst.GaussCDF_inst). Qed.
+Print Assumptions C09_identical_equal_inst.
+
+Theorem C09_mono_own_inst :
+  forall (beta : R) (l1 l2 : list (list (rating R))) (p1 p2 : list (rating R)) (p p' : rating R),
+  0 < beta ->
+  (2 <= length (l1 ++ (p1 ++ p :: p2) :: l2))%nat -> Forall (fun t => t <> []) (l1 ++ (p1 ++ p :: p2) :: l2) ->
+  r_sigma p' = r_sigma p -> r_mu p <= r_mu p' ->
+  nth (length l1) (predict_win (H := RNum GaussInst.PhiK GaussInst.PhiinvK) beta (l1 ++ (p1 ++ p :: p2) :: l2)) 0
+  <= nth (length l1) (predict_win (H := RNum GaussInst.PhiK GaussInst.PhiinvK) beta (l1 ++ (p1 ++ p' :: p2) :: l2)) 0.
+Proof. exact (C09_mono_own GaussInst.PhiK GaussInst.PhiinvK GaussInst.GaussCDF_inst). Qed.
+Print Assumptions C09_mono_own_inst.
+
+Theorem C09_mono_other_inst :
+  forall (beta : R) (l1 l2 : list (list (rating R))) (p1 p2 : list (rating R)) (p p' : rating R) (j : nat),
+  0 < beta ->
+  (2 <= length (l1 ++ (p1 ++ p :: p2) :: l2))%nat -> Forall (fun t => t <> []) (l1 ++ (p1 ++ p :: p2) :: l2) ->
+  r_sigma p' = r_sigma p -> r_mu p <= r_mu p' ->
+  (j < length (l1 ++ (p1 ++ p :: p2) :: l2))%nat -> j <> length l1 ->
+  nth j (predict_win (H := RNum GaussInst.PhiK GaussInst.PhiinvK) beta (l1 ++ (p1 ++ p' :: p2) :: l2)) 0
+  <= nth j (predict_win (H := RNum GaussInst.PhiK GaussInst.PhiinvK) beta (l1 ++ (p1 ++ p :: p2) :: l2)) 0.
+Proof. exact (C09_mono_other GaussInst.PhiK GaussInst.PhiinvK GaussInst.GaussCDF_inst). Qed.
+Print Assumptions C09_mono_other_inst.
